@@ -228,6 +228,14 @@ def random_nfa(Sigma: Set[Symbol], n: int) -> NFA:
     return NFA(Q, Sigma, delta, q0, F, epsilon)
 
 
+def _fresh_state(id_generator: IdentifierGenerator, Q: Set[State]) -> State:
+    """Generates a state that does not occur in Q."""
+    q = State(id_generator.generate('q'))
+    while q in Q:
+        q = State(id_generator.generate('q'))
+    return q
+
+
 def _copy_transitions(*deltas) -> MutableMapping[Tuple[State, Symbol], Set[State]]:
     """Returns a new transition relation with copies of the target sets, such that the operands are not modified."""
     delta = defaultdict(lambda: set([]))
@@ -239,7 +247,7 @@ def _copy_transitions(*deltas) -> MutableMapping[Tuple[State, Symbol], Set[State
 
 def nfa_repetition(N: NFA, id_generator: IdentifierGenerator = IdentifierGenerator()) -> NFA:
     Sigma = N.Sigma
-    q0 = State(id_generator.generate('q'))
+    q0 = _fresh_state(id_generator, N.Q)
     Q = N.Q | {q0}
     F = N.F | {q0}
     delta = _copy_transitions(N.delta)
@@ -252,7 +260,7 @@ def nfa_repetition(N: NFA, id_generator: IdentifierGenerator = IdentifierGenerat
 def nfa_union(N1: NFA, N2: NFA, id_generator: IdentifierGenerator = IdentifierGenerator()) -> NFA:
     assert N1.Q.isdisjoint(N2.Q)
     Sigma = N1.Sigma | N2.Sigma
-    q0 = State(id_generator.generate('q'))
+    q0 = _fresh_state(id_generator, N1.Q | N2.Q)
     Q = N1.Q | N2.Q | {q0}
     F = N1.F | N2.F
     delta = _copy_transitions(N1.delta, N2.delta)
